@@ -579,17 +579,26 @@ def g6(v):
     return float("%G" % v)
 
 
-def arc_pred6(arc, ts):
-    """points of the arc that Arc.d() *prints* (radii and rotation with 6 significant digits, flags
-    re-derived from the sweep), evaluated with the F.6.5 evaluator written from the specification"""
+def arc_params6(arc):
+    """the parameters Arc.d() prints: radii and rotation with 6 significant digits, flags from the sweep"""
+    return [g6(arc.rx), g6(arc.ry), g6(arc.get_rotation().as_degrees), int(abs(arc.sweep) > math.pi), int(arc.sweep >= 0)]
+
+
+def arc_pred_from(params, s, e, ts):
+    """points of the arc with the given printed parameters between s and e, by the F.6.5 evaluator
+    written from the specification"""
     from props.c05 import f6, f6_point
-    s = [float(arc.start[0]), float(arc.start[1])]
-    e = [float(arc.end[0]), float(arc.end[1])]
-    rx, ry, rot = g6(arc.rx), g6(arc.ry), g6(arc.get_rotation().as_degrees)
-    fa, fs = int(abs(arc.sweep) > math.pi), int(arc.sweep >= 0)
+    rx, ry, rot, fa, fs = params
+    s, e = [float(s[0]), float(s[1])], [float(e[0]), float(e[1])]
     g = f6(s, rx, ry, rot, fa, fs, e)
     if g is None:
         if s == e:
             return [list(s) for _ in ts]
         return [[s[0] + t * (e[0] - s[0]), s[1] + t * (e[1] - s[1])] for t in ts]
     return [f6_point(g, t) for t in ts]
+
+
+def arc_pred6(arc, ts):
+    """points of the arc that Arc.d() *prints* (radii and rotation with 6 significant digits, flags
+    re-derived from the sweep), evaluated with the F.6.5 evaluator written from the specification"""
+    return arc_pred_from(arc_params6(arc), arc.start, arc.end, ts)
